@@ -187,15 +187,17 @@ Proof.
   - apply nth_error_None in Hme. lia.
 Qed.
 
-Lemma serialize_Ok : forall files, exists img, serialize files = Ok img.
+(* serialize answers Ok or - since F26 (530f18c): more than 65535 files or an image above 4 GiB - Err, never a panic *)
+Lemma serialize_no_panic : forall files k, serialize files <> Panic k.
 Proof.
-  intros files. unfold serialize.
+  intros files k. unfold serialize.
   destruct (fold_left _ (map fst files) _) as [taddrs txt0].
-  destruct (fold_left _ (map snd files) _) as [finfo raw]. eauto.
+  destruct (fold_left _ (map snd files) _) as [finfo raw].
+  match goal with |- (if ?c then _ else _) <> _ => destruct c end; discriminate.
 Qed.
 
 Theorem pack_reserialize_no_panic : forall m f v, parse m f = Ok v -> forall k, serialize v <> Panic k.
-Proof. intros m f v _ k. destruct (serialize_Ok v) as [img ->]. discriminate. Qed.
+Proof. intros m f v _ k. apply serialize_no_panic. Qed.
 
 (* ------------------------------------------------------------------ the code as found (before the repairs)
    F7: `if magic != MAGIC { todo!() }`;  F8: `vec![0; size]` before any comparison with the input.
